@@ -15,7 +15,9 @@ VH = os.path.join(HARN, 'target', 'release', 'vh')
 sys.path.insert(0, os.path.join(ROOT, 'tools'))
 from registry import PROPS, COMPONENTS  # noqa
 
-TLC_JAVA_OPTS = '-Xss1g -Dtlc2.tool.queue.IStateQueue=StateDeque'
+TLC_JAVA_OPTS = '-Xss1g -Dtlc2.tool.queue.IStateQueue=StateDeque -XX:ParallelGCThreads=2'
+# VERIF_FIRST=1 (matrix tools): stop at the first rejected run instead of collecting up to 12 per chunk
+FIRST_ONLY = os.environ.get('VERIF_FIRST') == '1'
 
 
 class ToolError(Exception):
@@ -343,7 +345,7 @@ def validate_file(comp, profile, runs, workdir, tag):
     states = 0
     runs = list(runs)
     guard = 0
-    while runs and guard < 12:
+    while runs and guard < (1 if FIRST_ONLY else 12):
         guard += 1
         tf = os.path.join(workdir, 'trace_%s.ndjson' % tag)
         with open(tf, 'w') as f:
@@ -376,7 +378,7 @@ def validate_file(comp, profile, runs, workdir, tag):
             ev = {}
         rejected.append((runs[k], idx, ev))
         del runs[k]
-    n_ok = len(runs) if guard < 12 else 0
+    n_ok = len(runs) if guard < 12 and not (FIRST_ONLY and rejected) else 0
     return n_ok, rejected, states
 
 
@@ -490,6 +492,8 @@ def run_part(prop, P, part, tier, seed, workdir, known):
                 f.writelines(run[:idx])   # up to and including the first unmatched event
             violations.append((rp, idx, ev))
         log('[%s] trace validation %s under %s: %d/%d runs accepted, %d events' % (prop, tag, profile, v['accepted'], v['runs'], v['events']))
+        if FIRST_ONLY and violations:
+            break
 
     # binding self-test: a corrupted trace must be rejected
     selftest = {'corrupted_rejected': None}
